@@ -301,6 +301,31 @@ func (s *shape) walk(n *node.Node, depth int, root bool) {
 	s.sig.WriteByte(')')
 }
 
+// descendantsBroken walks the trie and returns a description of the first branch whose
+// Descendants counter differs from the number of nodes below it ("" when all agree).
+// Descendants is internal bookkeeping (not part of any property), but ClearPrefix uses
+// "1 + Descendants == 0" as "nothing removed", so a wrong counter can surface later.
+func descendantsBroken(n *node.Node) (count int, bad string) {
+	if n == nil {
+		return 0, ""
+	}
+	below := 0
+	for _, ch := range n.Children {
+		if ch == nil {
+			continue
+		}
+		c, b := descendantsBroken(ch)
+		if b != "" && bad == "" {
+			bad = b
+		}
+		below += c
+	}
+	if n.Kind() == node.Branch && int64(n.Descendants) != int64(below) && bad == "" {
+		bad = fmt.Sprintf("branch with partial key %x has Descendants=%d but %d nodes below it", n.PartialKey, n.Descendants, below)
+	}
+	return below + 1, bad
+}
+
 // shapeOf inspects the trie structure (call after Hash() so that Merkle values are cached).
 func shapeOf(t *inmemory.InMemoryTrie) *shape {
 	s := &shape{}
